@@ -391,7 +391,15 @@ impl Impl {
         let order: RefCell<Vec<usize>> = RefCell::new(Vec::new());
         let mut futs: Vec<Option<Pin<Box<dyn Future<Output = Result<Res, String>> + '_>>>> = Vec::new();
         let mut results: Vec<Option<Result<Res, String>>> = vec![None; calls.len()];
-        let waker = futures_util::task::noop_waker();
+        // a waker that only notes that something moved (completion of an I/O the call waits for)
+        struct Flag(std::sync::atomic::AtomicBool);
+        impl futures_util::task::ArcWake for Flag {
+            fn wake_by_ref(arc_self: &std::sync::Arc<Self>) {
+                arc_self.0.store(true, std::sync::atomic::Ordering::SeqCst);
+            }
+        }
+        let flag = std::sync::Arc::new(Flag(std::sync::atomic::AtomicBool::new(false)));
+        let waker = futures_util::task::waker(flag.clone());
         let mut cx = Context::from_waker(&waker);
         for (i, (op, log)) in calls.iter().enumerate() {
             let order = &order;
@@ -402,7 +410,11 @@ impl Impl {
             })));
             // park it: whatever the call does before begin() (validation; in a broken version also
             // reads) gets wall time to finish, then it must sit in the permit queue
-            for round in 0..4 {
+            // (a call waiting for the permit is never woken while the harness holds it: quiet for
+            //  three rounds = parked; at most 60 rounds)
+            let mut quiet = 0;
+            for _ in 0..60 {
+                flag.0.store(false, std::sync::atomic::Ordering::SeqCst);
                 for (j, slot) in futs.iter_mut().enumerate() {
                     if let Some(f) = slot {
                         if let Poll::Ready(r) = f.as_mut().poll(&mut cx) {
@@ -414,16 +426,30 @@ impl Impl {
                 if futs[i].is_none() {
                     break;
                 }
-                if round < 3 {
-                    std::thread::sleep(std::time::Duration::from_micros(200));
+                std::thread::sleep(std::time::Duration::from_micros(250));
+                if flag.0.load(std::sync::atomic::Ordering::SeqCst) {
+                    quiet = 0;
+                } else {
+                    quiet += 1;
+                    if quiet >= 3 {
+                        break;
+                    }
                 }
             }
         }
         self.store.rollback(permit).await.map_err(|e| e.to_string())?;
-        for (j, slot) in futs.iter_mut().enumerate() {
-            if let Some(f) = slot.take() {
-                // (awaited with the task's real waker; tokio / sqlx re-register it on this poll)
-                results[j] = Some(f.await);
+        // all remaining calls are driven TOGETHER (whichever got the permit must be polled), with
+        // the task's real waker (tokio / sqlx re-register it on the next poll)
+        let rest = futures_util::future::join_all(futs.iter_mut().map(|slot| async move {
+            match slot.take() {
+                Some(f) => Some(f.await),
+                None => None,
+            }
+        }))
+        .await;
+        for (j, r) in rest.into_iter().enumerate() {
+            if let Some(r) = r {
+                results[j] = Some(r);
             }
         }
         drop(futs);
